@@ -80,9 +80,13 @@ def ensure_makefile():
 
 
 def make(targets, jobs=8):
-    ensure_makefile()
-    return sh(["timeout", str(COQ_TIMEOUT), "make", "-f", "Makefile.coq", "-j%d" % jobs] + targets,
-              cwd=COQ, timeout=COQ_TIMEOUT + 30)
+    # one build at a time: two checks started side by side would otherwise compile shared files concurrently
+    import fcntl
+    with open(os.path.join(COQ, ".build.lock"), "w") as lock:
+        fcntl.flock(lock, fcntl.LOCK_EX)
+        ensure_makefile()
+        return sh(["timeout", str(COQ_TIMEOUT), "make", "-f", "Makefile.coq", "-j%d" % jobs] + targets,
+                  cwd=COQ, timeout=COQ_TIMEOUT + 30)
 
 
 def coq_deps(vfile):
